@@ -20,6 +20,9 @@
 (*   <<"call1",d,a,b>> <<"call2",d,<<a1..a8>>>>   (C helpers; 6 register + 2 stack arguments on SysV x64)        *)
 (*   <<"initall",lo,hi>>  (v := InitConst(v) for v in lo..hi)   <<"fold",acc,lo,hi>>  (acc := acc*31+v ...)      *)
 (*   <<"ret",v>>                                                                                               *)
+(*   vector registers x1,x2,... (a second, independent unbounded set; lane 0 holds a 16-bit value):              *)
+(*   <<"vset",x,s>> (movd x,s)  <<"vget",d,x>> (movd d,x)  <<"vmov",x,y>>  <<"vxor",x,y>> <<"vor",x,y>> <<"vand",x,y>> *)
+(*   <<"vinitall",lo,hi>>  (x := InitConst(1000+x))   <<"vfold",acc,lo,hi>>  (acc := acc*31 + x ...)              *)
 EXTENDS Integers, Sequences, FiniteSets, TLC, Bitwise
 
 M16 == 65536
@@ -64,19 +67,46 @@ RegsOf(I) ==
     [] op = "call2" -> <<I[2]>> \o I[3]
     [] op \in {"initall", "fold"} -> <<I[2], I[3], I[Len(I)]>>
     [] op = "ret" -> <<I[2]>>
+    [] op = "vset" -> <<I[3]>>
+    [] op = "vget" -> <<I[2]>>
+    [] op = "vfold" -> <<I[2]>>
     [] OTHER -> <<>>
+XRegsOf(I) ==
+  LET op == I[1] IN
+  CASE op = "vset" -> <<I[2]>>
+    [] op = "vget" -> <<I[3]>>
+    [] op \in {"vmov", "vxor", "vor", "vand", "vinitall"} -> <<I[2], I[3]>>
+    [] op = "vfold" -> <<I[3], I[4]>>
+    [] OTHER -> <<>>
+RECURSIVE ProgMaxXReg(_, _)
+ProgMaxXReg(prog, n) == IF n = 0 THEN 0 ELSE
+  LET a == SeqMax(XRegsOf(prog[n])) b == ProgMaxXReg(prog, n - 1) IN IF a > b THEN a ELSE b
 RECURSIVE ProgMaxReg(_, _)
 ProgMaxReg(prog, n) == IF n = 0 THEN 0 ELSE
   LET a == SeqMax(RegsOf(prog[n])) b == ProgMaxReg(prog, n - 1) IN IF a > b THEN a ELSE b
 
 (* ---- machine ---- *)
-InitMachine(nv, in) ==
+InitMachineX(nv, nx, in) ==
   [ r |-> [v \in 1..nv |-> IF v = 1 THEN in[1] ELSE IF v = 2 THEN in[2] ELSE 0],
+    x |-> [v \in 1..nx |-> 0], xdef |-> {},
     def |-> {v \in 1..nv : v <= 2},                       \* registers written so far (reads of others = ill-defined)
     pc |-> 1, out |-> [k \in 1..NOUT |-> 0], stk |-> [k \in 1..NS |-> 0], sdef |-> {},
     log |-> <<>>, ret |-> 0, halted |-> FALSE, bad |-> FALSE ]
+InitMachine(nv, in) == InitMachineX(nv, 0, in)
 
 RECURSIVE FoldVal(_, _, _, _)
+XReads(I) ==
+  LET op == I[1] IN
+  CASE op = "vget" -> {I[3]}
+    [] op = "vmov" -> {I[3]}
+    [] op \in {"vxor", "vor", "vand"} -> {I[2], I[3]}
+    [] op = "vfold" -> I[3]..I[4]
+    [] OTHER -> {}
+XWrites(I) ==
+  LET op == I[1] IN
+  CASE op \in {"vset", "vmov", "vxor", "vor", "vand"} -> {I[2]}
+    [] op = "vinitall" -> I[2]..I[3]
+    [] OTHER -> {}
 FoldVal(r, acc, lo, hi) == IF lo > hi THEN acc ELSE FoldVal(r, (Mul16(acc, 31) + r[lo]) % M16, lo + 1, hi)
 
 (* registers read by an instruction (for the well-definedness check only) *)
@@ -101,11 +131,14 @@ Reads(I) ==
     [] op = "call2" -> {I[3][k] : k \in 1..8}
     [] op = "fold" -> {I[2]} \cup (I[3]..I[4])
     [] op = "ret" -> {I[2]}
+    [] op = "vset" -> {I[3]}
+    [] op = "vfold" -> {I[2]}
+    [] op \in {"vget", "vmov", "vxor", "vor", "vand", "vinitall"} -> {}
 
 Writes(I) ==
   LET op == I[1] IN
   CASE op \in {"movi", "mov", "add", "sub", "imul", "and", "or", "xor", "addi", "subi", "muli", "andi", "ori", "neg", "not",
-               "shl", "shr", "sar", "xorself", "ld", "sld", "sldx", "call1", "call2", "fold"} -> {I[2]}
+               "shl", "shr", "sar", "xorself", "ld", "sld", "sldx", "call1", "call2", "fold", "vget", "vfold"} -> {I[2]}
     [] op = "setcc" -> {I[5]}
     [] op = "cmov" -> {I[5]}
     [] op \in {"div", "idiv", "mul"} -> {I[2], I[3]}
@@ -117,6 +150,7 @@ Writes(I) ==
 (* TRUE iff executing I in m is well-defined (no uninitialised read, no division fault, cells in range) *)
 WellDefinedAt(m, I) ==
   /\ Reads(I) \subseteq m.def
+  /\ XReads(I) \subseteq m.xdef
   /\ (I[1] \in {"div", "idiv"} => m.r[I[2]] = 0 /\ m.r[I[4]] # 0 /\ Cardinality({I[2], I[3], I[4]}) = 3)
   /\ (I[1] = "mul" => Cardinality({I[2], I[3], I[4]}) = 3)
   /\ (I[1] = "cmpxchg" => Cardinality({I[2], I[3], I[4]}) = 3)
@@ -134,7 +168,8 @@ Exec(prog, m) ==
   LET I == prog[m.pc]
       op == I[1]
       r == m.r
-      m1 == [m EXCEPT !.def = @ \cup Writes(I)]
+      m1 == [m EXCEPT !.def = @ \cup Writes(I), !.xdef = @ \cup XWrites(I)]
+      x == m.x
   IN
   CASE op = "movi" -> Set(m1, I[2], I[3])
     [] op = "mov"  -> Set(m1, I[2], r[I[3]])
@@ -179,6 +214,14 @@ Exec(prog, m) ==
                        [m1 EXCEPT !.r[I[2]] = H2(a), !.log = Append(@, <<2>> \o a), !.pc = @ + 1]
     [] op = "initall" -> [m1 EXCEPT !.r = [v \in DOMAIN r |-> IF v \in I[2]..I[3] THEN InitConst(v) ELSE r[v]], !.pc = @ + 1]
     [] op = "fold" -> Set(m1, I[2], FoldVal(r, r[I[2]], I[3], I[4]))
+    [] op = "vset" -> [m1 EXCEPT !.x[I[2]] = r[I[3]], !.pc = @ + 1]
+    [] op = "vget" -> Set(m1, I[2], x[I[3]])
+    [] op = "vmov" -> [m1 EXCEPT !.x[I[2]] = x[I[3]], !.pc = @ + 1]
+    [] op = "vxor" -> [m1 EXCEPT !.x[I[2]] = x[I[2]] ^^ x[I[3]], !.pc = @ + 1]
+    [] op = "vor"  -> [m1 EXCEPT !.x[I[2]] = x[I[2]] | x[I[3]], !.pc = @ + 1]
+    [] op = "vand" -> [m1 EXCEPT !.x[I[2]] = x[I[2]] & x[I[3]], !.pc = @ + 1]
+    [] op = "vinitall" -> [m1 EXCEPT !.x = [v \in DOMAIN x |-> IF v \in I[2]..I[3] THEN InitConst(1000 + v) ELSE x[v]], !.pc = @ + 1]
+    [] op = "vfold" -> Set(m1, I[2], FoldVal(x, r[I[2]], I[3], I[4]))
     [] op = "ret"  -> [m1 EXCEPT !.ret = r[I[2]], !.halted = TRUE]
 
 (* one step of one machine; an ill-defined step or running off the end marks the machine bad (generator bug) *)
